@@ -12,6 +12,7 @@
 package vrt
 
 import (
+	"encoding/json"
 	"fmt"
 	"runtime"
 	"strings"
@@ -561,8 +562,41 @@ func Run(prefix, expectN []int32, setup func(s *Sched), body func()) *Exec {
 			<-watchdog.C
 		}
 	case <-watchdog.C:
+		// spinning or merely slow? a spinning thread reaches no further scheduling point
+		n0 := len(s.Points)
+		time.Sleep(5 * time.Second)
+		progressed := len(s.Points) != n0 || s.ended
 		buf := make([]byte, 1<<20)
 		n := runtime.Stack(buf, true)
+		spinFrame := ""
+		for _, blk := range strings.Split(string(buf[:n]), "\n\n") {
+			if progressed {
+				break
+			}
+			ls := strings.Split(blk, "\n")
+			if len(ls) < 2 || !(strings.Contains(ls[0], "[running]") || strings.Contains(ls[0], "[runnable")) || strings.Contains(blk, "vrt.Run(") {
+				continue // parked threads wait on their parker; the goroutine that runs this watchdog is inside vrt.Run
+			}
+			fn := ls[1]
+			if strings.HasPrefix(fn, "github.com/goptics/varmq") && !strings.Contains(fn, "/internal/vharness") && !strings.Contains(fn, "/internal/vrt") {
+				spinFrame = fn
+				if i := strings.Index(spinFrame, "("); i > 0 {
+					spinFrame = spinFrame[:i]
+				}
+			}
+		}
+		if cur := s.cur; cur != nil && spinFrame != "" {
+			// the thread that holds the processor has not reached a synchronisation operation for the whole watchdog
+			// period and its innermost frame is library code: it spins there (e.g. walks a corrupted list). Not a
+			// limit of the engine: reported with the schedule that led here so that the driver can file it as a violation.
+			ch, ne := make([]int32, len(s.Points)), make([]int32, len(s.Points))
+			for i, p := range s.Points {
+				ch[i], ne[i] = p.Chosen, p.NEnabled
+			}
+			b, _ := json.Marshal(map[string]any{"thread": cur.Name + " in " + spinFrame, "site": cur.Site, "choices": ch, "nenabled": ne, "watchdog_s": int(wd.Seconds())})
+			fmt.Printf("\nSPIN %s\n", b)
+			exitProcess(3)
+		}
 		fmt.Printf("ERROR engine watchdog: execution did not end within %v\n%s\n", wd, buf[:n])
 		exitProcess(2)
 	}
